@@ -30,7 +30,7 @@ BOUNDS = {'quick': 'all shapes of depth <= 3 over 6 scope kinds (258 programs), 
           'thorough': '8 scope kinds, depth <= 3 (584 programs) with two soup variants'}
 
 EXPR_KINDS = ('lambda', 'lambda0', 'listcomp', 'genexp', 'setcomp', 'dictcomp')
-STMT_KINDS = ('def', 'class', 'asyncdef')
+STMT_KINDS = ('def', 'class', 'classkw', 'asyncdef')
 
 
 def indent(lines, n=4):
@@ -89,11 +89,12 @@ def render(kinds, d=0, ctx=None):
         lines = [f'@dec{s}(darg{s})',
                  f'{head} f{s}(po{s}, /, p{s}: pa{s}, q{s}=dq{s}, *a{s}: va{s}, kn{s}: kna{s}, k{s}: ka{s} = dk{s}, **kw{s}: kwa{s}) -> rt{s}:'] + indent(body)
         return 'stmt', lines
-    if k == 'class':
+    if k in ('class', 'classkw'):
         inner = {'fn': ctx['fn'], 'cls_nearest': True}
         body = [f'cv{s} = cfr{s} + {up} + cdu{s}', f'del cdu{s}', f'up{s}_ = 1', f'global cg{s}', f'cg{s} = 1', f'def meth{s}(self): return cv{s}, self']
         body += child(inner, True)
-        return 'stmt', [f'@cdec{s}', f'class C{s}(B{s}, metaclass=M{s}):'] + indent(body)
+        head = [f'@cdec{s}', f'class C{s}(B{s}, metaclass=M{s}):'] if k == 'class' else [f'class C{s}(metaclass=KM{s}, **ckw{s}):']
+        return 'stmt', head + indent(body)  # 'classkw': no decorator, no base - only keywords are evaluated in the enclosing scope
     if k == 'lambda':
         inner = {'fn': ctx['fn'], 'cls_nearest': False, 'lam': True}
         ch = child(inner, False)
@@ -381,8 +382,8 @@ def _kind_of(name):
 
 
 def shards(tier):
-    kinds = ('def', 'class', 'lambda', 'lambda0', 'listcomp', 'genexp', 'dictcomp') if tier == 'quick' else \
-        ('def', 'asyncdef', 'class', 'lambda', 'lambda0', 'listcomp', 'setcomp', 'genexp', 'dictcomp')
+    kinds = ('def', 'class', 'classkw', 'lambda', 'lambda0', 'listcomp', 'genexp', 'dictcomp') if tier == 'quick' else \
+        ('def', 'asyncdef', 'class', 'classkw', 'lambda', 'lambda0', 'listcomp', 'setcomp', 'genexp', 'dictcomp')
     sh = list(shapes(kinds, 3))
     out = [{'shapes': [list(s) for s in sh[i:i + 8]]} for i in range(0, len(sh), 8)]
     comps = ('listcomp', 'genexp', 'setcomp', 'dictcomp')
